@@ -52,6 +52,22 @@ fn main() {
     checked += 1;
     let c = (Exec::cmd("sh").arg("-c").arg("cat; echo first") | Exec::cmd("sh").arg("-c").arg("cat >/dev/null; echo last")).stdin("x\n").stdout(Redirection::Pipe).capture().unwrap();
     if c.stdout_str() != "last\n" { println!("FAIL: pipeline output {:?}, expected only the last stage's", c.stdout_str()); bad += 1; }
+    // a first stage that stops reading its input early: the exchange may fail (broken pipe), but a result reported as Ok is complete --
+    // every line any stage wrote afterwards is there, and the status is the last stage's
+    for shape in 0..2 {
+        checked += 1;
+        let first = Exec::cmd("sh").arg("-c").arg("exec 0<&-; sleep 0.4; echo late; echo elate >&2");
+        let p = if shape == 0 { first | Exec::cmd("cat") } else { subprocess::Pipeline::from_exec_iter(vec![first, Exec::cmd("cat"), Exec::cmd("cat")]) };
+        match p.stdin(vec![b'x'; 1_000_000]).capture() {
+            Ok(c) => {
+                if c.stdout_str() != "late\n" || !c.stderr_str().contains("elate") || c.exit_status != ExitStatus::Exited(0) {
+                    println!("FAIL: capture of a pipeline whose first stage stops reading returned Ok with stdout {:?}, stderr {:?}, status {:?}: output written after the input was refused is missing", c.stdout_str(), c.stderr_str(), c.exit_status);
+                    bad += 1;
+                }
+            }
+            Err(_) => {}        // a broken pipe on the input side is a legitimate outcome
+        }
+    }
     let _ = Duration::from_secs(0);
     println!("{} pipelines checked, {} mismatches", checked, bad);
     if bad > 0 { std::process::exit(1); }
